@@ -4,11 +4,13 @@ proof: Coq theorems about a hand-written executable model of TreeSet.h (coq/BTre
 tie:   T-cor - the extracted model and the real TreeSet/TreeMap run the same op histories on 48 node/traits/item/crew/
        memory-manager configurations (each static_asserted to instantiate the intended classes); per op the index of every returned iterator, bounds/find/count on probe keys, forward and
        backward traversals, GetCount and the pre-order shape (leaf?/count/capacity) must be identical;
+       node scripts: the real Node object driven directly, count byte / memPoolIndex / capacity / whole index table / raw slots /
+       child array compared byte for byte with the generated (Gen_NodeOpsI/C) + hand (IndexTable.v) node model;
 oracle: a stable sorted std::vector twin inside the harness (independent of the model), structural checks of the real
        nodes (parent links, uniform depth, count <= capacity) and a counting memory manager (no leak after merges)."""
 import os
 
-GEN = ['gen_treenode.json', 'gen_node.json']
+GEN = ['gen_treenode.json', 'gen_node.json', 'gen_nodeops_i.json', 'gen_nodeops_c.json']
 
 #   id: (maxCap, step, blockCount, lin, multi, key, value(''=set), real layout, crew, checkVersion, memory manager, traits)
 #   key kinds: int = trivially relocatable; str = nothrow move, not trivially relocatable (short keys inside the SSO buffer,
@@ -268,7 +270,9 @@ def gen_big_history(r, cid, thorough, first=False):
     ops += ['f%d:%d:1' % (n // 2, base + 5 * n), 's', 'g1:-2', 's', 't']         # re-growth, then everything but the two ends
     ops += ['f%d:%d:-1' % (n // 3 + 3, base + 9 * n), 's']
     if not thorough or mc <= 64:
-        ops += ['r0'] * r.range(mc + 2, 3 * mc + 8) + ['s'] + ['r-1'] * r.range(mc + 2, 3 * mc + 8) + ['s', 't']
+        d1 = r.range(mc + 2, 3 * mc + 8); d2 = r.range(mc + 2, 3 * mc + 8)
+        if n > 5000: d1 = min(d1, 40); d2 = min(d2, 40)      # per-op iterator indexes are O(n) in the model: keep the 34 000-item cases short
+        ops += ['r0'] * d1 + ['s'] + ['r-1'] * d2 + ['s', 't']
     ops += [r.choice(['c', 'z', 'g0:-1']), 's', 'i5', 't']
     return line(cid, ops)
 
@@ -300,6 +304,30 @@ def gen_destroy_history(r, cid):
     ops += [r.choice(['u', 'v', 'bu', 'bv']), 's', 'bs', 't', 'bt', r.choice(['z', 'bz']), 's', 'bs', r.choice(['i7', 'bi7']), 't', 'bt']
     return line(cid, ops)
 
+def gen_node_script(r, cid):
+    """the REAL Node object driven directly (Create / construct item + AcceptBackItem / Remove, valid and assert-violating
+    indexes, leaf and internal nodes, filled to the last slot): count byte, memPoolIndex, capacity, the whole index table,
+    every raw slot and the child array are compared with the generated + hand node model after every op"""
+    mc = CONFIGS[cid][0]; layout = CONFIGS[cid][7]
+    ops = ['N', layout]
+    count = 0
+    def create():
+        nonlocal count
+        c0 = r.choice([0, 0, 1, mc // 2, max(0, mc - 1), mc, r.below(mc + 1)])
+        ops.append(r.choice(['L', 'T']) + str(c0)); count = c0
+    create()
+    dist('node.scripts')
+    for _ in range(r.range(10, 60 if mc <= 64 else 30)):
+        t = r.below(20)
+        if t == 0: create()
+        elif t < 11 or count == 0:
+            ops.append('A%d:%d' % (r.choice([0, count, r.below(count + 1), r.below(count + 1), count + 1]), 2000 + r.below(7000)))
+            count = min(count + 1, mc)      # estimate only: a leaf can be smaller, then the op is a checked assert ('S')
+        else:
+            ops.append('R%d' % r.choice([0, max(0, count - 1), r.below(count), r.below(count), count]))
+            count = max(0, count - 1)
+    return head(cid) + ' ' + ' '.join(ops)
+
 def gen_cases(ctx, scale, modelled_only):
     r = ctx.rng
     cases = []
@@ -317,6 +345,9 @@ def gen_cases(ctx, scale, modelled_only):
         if merge_modelled(cid) or not modelled_only:
             for _ in range((4 if mc <= 8 else 2) * scale):
                 cases.append(gen_destroy_history(r, cid))
+        if modelled_only and CONFIGS[cid][6] == '':
+            for _ in range((6 if mc <= 64 else 3) * scale):
+                cases.append(gen_node_script(r, cid))
         if modelled_only and merge_modelled(cid):
             for _ in range((8 if mc <= 8 else 3) * scale):
                 cases.append(gen_merge_modelled(r, cid))
@@ -482,7 +513,7 @@ def replay(ctx, rp):
 
 def run(ctx):
     scale = 1 if ctx.quick() else 8
-    ctx.trusted += ['tools/cxx2coq.py + clang 14 JSON AST for GetSplitItemIndex / GetCapacity / pvGetLeafMemPoolIndex (validated through the shape correspondence)',
+    ctx.trusted += ['tools/cxx2coq.py + clang 14 JSON AST for GetSplitItemIndex / GetCapacity / pvGetLeafMemPoolIndex / Node::AcceptBackItem, Remove, pvAcceptBackItem, pvRemove, pvInitIndexes, GetCount of both layouts (validated through the shape and the node-level byte correspondence); inside the node operations the calls std::copy, std::copy_backward, ShiftNothrow and the item remover are skipped by the translator (hand model + byte tie)',
                     'extraction: ExtrOcamlBasic only (no Extract Constant; Extraction Blacklist for module names), OCaml 4.13.1, zarith for decimal I/O only',
                     'g++ 12 -std=c++17, harness reaches private members via #define private public',
                     'the hand-written model coq/BTreeModel.v is tied to TreeSet.h by differential execution only (T-cor), on the listed configurations']
